@@ -1,9 +1,77 @@
-(* Props/C11.v — JSON keys survive renaming.  This revision: table links; the label theorems (label_fold, label_injective,
-   convert_idem, ...) are merged from Proofs/LabelProps.v when finished.  prepare_label / underscore / camelize are tied
-   to the code by X-names, the emitted alias / metadata literals by X-emit. *)
+(* Props/C11.v — JSON keys survive renaming.  Statements only; proofs in Proofs/LabelProps.v.  The *_real theorems are
+   instantiated with the blacklist and 'ones' regenerated from models/base.py (Gen/Labels.v); the remaining premises are
+   facts about the external per-character tables (str.lower, re \w, unidecode), checked over every code point by the
+   harness on each run.  fold_key mentions neither inflection.underscore nor the blacklist. *)
 From Coq Require Import List Bool Arith NArith String.
 From J2M.Model Require Import Base Framework Label Emit.
 From J2M.Gen Require Labels.
+From J2M.Proofs Require Import LabelProps.
+
+Theorem C11_label_fold :
+  forall (unidecode_c : N -> str) (is_word_c is_decimal_c : N -> bool) (lower_c : N -> str),
+       lower_c 95%N = 95%N :: nil ->
+       (forall c : N, c <> 95%N -> ~ In 95%N (lower_c c)) ->
+       is_word_c 45%N = false ->
+       forall (cu : bool) (k l : str),
+       prepare_label unidecode_c is_word_c is_decimal_c lower_c Labels.blacklist Labels.ones cu true k =
+       Some l -> remove_us l = fold_key unidecode_c is_word_c lower_c Labels.ones cu k.
+Proof. exact LabelProps.label_fold_real. Qed.
+
+Theorem C11_label_injective :
+  forall (unidecode_c : N -> str) (is_word_c is_decimal_c : N -> bool) (lower_c : N -> str),
+       lower_c 95%N = 95%N :: nil ->
+       (forall c : N, c <> 95%N -> ~ In 95%N (lower_c c)) ->
+       is_word_c 45%N = false ->
+       forall (cu : bool) (k1 k2 l1 l2 : str),
+       prepare_label unidecode_c is_word_c is_decimal_c lower_c Labels.blacklist Labels.ones cu true k1 =
+       Some l1 ->
+       prepare_label unidecode_c is_word_c is_decimal_c lower_c Labels.blacklist Labels.ones cu true k2 =
+       Some l2 ->
+       fold_key unidecode_c is_word_c lower_c Labels.ones cu k1 <>
+       fold_key unidecode_c is_word_c lower_c Labels.ones cu k2 -> l1 <> l2.
+Proof. exact LabelProps.label_injective_real. Qed.
+
+Theorem C11_label_none_iff :
+  forall (unidecode_c : N -> str) (is_word_c is_decimal_c : N -> bool) (lower_c : N -> str)
+         (blacklist ones : list str) (cu snake : bool) (k : str),
+       prepare_label unidecode_c is_word_c is_decimal_c lower_c blacklist ones cu snake k = None <->
+       stripped unidecode_c is_word_c cu k = nil.
+Proof. exact LabelProps.label_none_iff. Qed.
+
+Theorem C11_label_not_blacklisted :
+  forall (unidecode_c : N -> str) (is_word_c is_decimal_c : N -> bool) (lower_c : N -> str)
+         (cu snake : bool) (k l : str),
+       prepare_label unidecode_c is_word_c is_decimal_c lower_c Labels.blacklist Labels.ones cu snake k =
+       Some l -> existsb (str_eqb l) Labels.blacklist = false.
+Proof. exact LabelProps.label_not_blacklisted_real. Qed.
+
+Theorem C11_label_first_char :
+  forall (unidecode_c : N -> str) (is_word_c is_decimal_c : N -> bool) (lower_c : N -> str),
+       (forall c : N, ascii_digit c = true -> is_az (lower_c c) = false) ->
+       (forall c : N, lower_c c <> nil) ->
+       (forall c x : N, ascii_digit c = false -> hd_error (lower_c c) = Some x -> ascii_digit x = false) ->
+       forall (cu snake : bool) (k l : str),
+       prepare_label unidecode_c is_word_c is_decimal_c lower_c Labels.blacklist Labels.ones cu snake k =
+       Some l -> l <> nil /\ (forall x : N, hd_error l = Some x -> ascii_digit x = false).
+Proof. exact LabelProps.label_first_char_real. Qed.
+
+Theorem C11_convert_idem :
+  forall (unidecode_c : N -> str) (is_word_c is_decimal_c : N -> bool) (lower_c : N -> str),
+       is_word_c 95%N = true ->
+       (forall c : N, ascii_lower c = true -> is_word_c c = true) ->
+       (forall c : N, (c < 128)%N -> unidecode_c c = c :: nil) ->
+       (forall c d : N, In d (unidecode_c c) -> (d < 128)%N) ->
+       forall (cu : bool) (s l : str),
+       prepare_label unidecode_c is_word_c is_decimal_c lower_c Labels.blacklist Labels.ones cu false s =
+       Some l ->
+       prepare_label unidecode_c is_word_c is_decimal_c lower_c Labels.blacklist Labels.ones cu false l =
+       Some l.
+Proof. exact LabelProps.convert_idem_real. Qed.
+
+Theorem C11_blacklist_ok_real :
+  blacklist_ok Labels.blacklist = true.
+Proof. exact LabelProps.blacklist_ok_real. Qed.
+
 Import ListNotations.
 Theorem C11_metadata_name_link : Labels.METADATA_FIELD_NAME = s_ "J2M_ORIGINAL_FIELD".
 Proof. reflexivity. Qed.
